@@ -75,6 +75,7 @@ import (
 	inDecoder "github.com/cloudwego/hertz/pkg/app/server/binding/internal/decoder"
 	hJson "github.com/cloudwego/hertz/pkg/common/json"
 	"github.com/cloudwego/hertz/pkg/common/utils"
+	"github.com/cloudwego/hertz/pkg/common/verifhook"
 	"github.com/cloudwego/hertz/pkg/protocol"
 	"github.com/cloudwego/hertz/pkg/protocol/consts"
 	"github.com/cloudwego/hertz/pkg/route/param"
@@ -189,6 +190,7 @@ func (b *defaultBinder) bindTag(req *protocol.Request, v interface{}, params par
 		decoder := cached.(decoderInfo)
 		return decoder.decoder(req, params, rv.Elem())
 	}
+	verifhook.Yield("bindTag.miss", typeID)
 	validateTag := defaultValidateTag
 	if len(b.config.Validator.ValidateTag()) != 0 {
 		validateTag = b.config.Validator.ValidateTag()
@@ -207,6 +209,7 @@ func (b *defaultBinder) bindTag(req *protocol.Request, v interface{}, params par
 		return err
 	}
 
+	verifhook.Yield("bindTag.store", typeID)
 	cache.Store(typeID, decoderInfo{decoder: decoder, needValidate: needValidate})
 	return decoder(req, params, rv.Elem())
 }
@@ -239,6 +242,7 @@ func (b *defaultBinder) bindTagWithValidate(req *protocol.Request, v interface{}
 		}
 		return err
 	}
+	verifhook.Yield("bindTag.miss", typeID)
 	validateTag := defaultValidateTag
 	if len(b.config.Validator.ValidateTag()) != 0 {
 		validateTag = b.config.Validator.ValidateTag()
@@ -257,6 +261,7 @@ func (b *defaultBinder) bindTagWithValidate(req *protocol.Request, v interface{}
 		return err
 	}
 
+	verifhook.Yield("bindTag.store", typeID)
 	cache.Store(typeID, decoderInfo{decoder: decoder, needValidate: needValidate})
 	err = decoder(req, params, rv.Elem())
 	if err != nil {
